@@ -17,6 +17,7 @@ CONSTANTS
   MaxHeight = 2
   MsgMaxHeight = 2
   MaxRecv = 1000000
+  WithOutsider = TRUE
   PropShift = 0
   MaxSteps = 80
 INIT MBTInit
